@@ -928,6 +928,148 @@ Proof.
   apply walk_subs_is_conc_walk; [assumption|]. apply sel_names_assoc.
 Qed.
 
+(** * ONCE / POLL with writes between the walk and the send (partial)
+
+    The walk queues leaf HANDLES; the sender reads a handle when it sends it.
+    Writers may delete or rewrite queued leaves in between (a slow or
+    flow-controlled client parks the sender).  [walk_handles]: what the walk
+    over cache [c0] queues (target, index path, value then).  [held_send]: the
+    sender delivers, for every queued handle, either the value it had when it
+    was queued or a value stored under the same target and path in some state
+    [hist] the cache went through before the send (a deleted leaf keeps its
+    last value: it is reported with it; the variant in which it is not
+    reported at all is [held_send_skip]).  The RPC then sends the sync and ends
+    OK as in the sequential case (the walk itself is the sequential one). *)
+
+Fixpoint walk_handles (c : cache) (names : list string) (pf : option gpath)
+  (subs : list (option gpath)) : list (string * path * noti) :=
+  match subs with
+  | [] => []
+  | sp :: r =>
+      match complete_path pf sp with
+      | None => []
+      | Some full =>
+          flat_map (fun t => match assoc t c with
+                             | Some tr => map (fun pv => (t, fst pv, snd pv)) (query tr full)
+                             | None => []
+                             end) names
+          ++ walk_handles c names pf r
+      end
+  end.
+
+Definition read_later (hist : list cache) (h : string * path * noti) (n : noti) : Prop :=
+  n = snd h \/ exists c tr, In c hist /\ assoc (fst (fst h)) c = Some tr
+                            /\ lookup tr (snd (fst h)) = Some n.
+
+Inductive held_send (hist : list cache) : list (string * path * noti) -> list resp -> Prop :=
+| hs_nil : held_send hist [] []
+| hs_cons h n q r :
+    read_later hist h n -> held_send hist q r -> held_send hist (h :: q) (RUpd n :: r).
+
+(** the variant that may also drop a handle whose leaf is gone in some state *)
+Inductive held_send_skip (hist : list cache) : list (string * path * noti) -> list resp -> Prop :=
+| hk_nil : held_send_skip hist [] []
+| hk_cons h n q r :
+    read_later hist h n -> held_send_skip hist q r -> held_send_skip hist (h :: q) (RUpd n :: r)
+| hk_skip h q r :
+    (exists c, In c hist /\ forall tr, assoc (fst (fst h)) c = Some tr -> lookup tr (snd (fst h)) = None) ->
+    held_send_skip hist q r -> held_send_skip hist (h :: q) r.
+
+Lemma walk_handles_spec c names pf subs t p n :
+  wf_cache c ->
+  (forall sp, In sp subs -> complete_path pf sp <> None) ->
+  (In (t, p, n) (walk_handles c names pf subs) <->
+   In t names /\ exists tr sp full,
+     assoc t c = Some tr /\ lookup tr p = Some n /\ In sp subs
+     /\ complete_path pf sp = Some full /\ qmatch full p = true).
+Proof.
+  intros Hwf. induction subs as [|sp r IH]; cbn; intros Hok.
+  - split; [intros []|]. intros (_ & tr & sp & full & _ & _ & [] & _).
+  - destruct (complete_path pf sp) as [full|] eqn:E;
+      [|exfalso; apply (Hok sp); auto].
+    assert (Hr : forall sp', In sp' r -> complete_path pf sp' <> None) by (intros; apply Hok; auto).
+    rewrite in_app_iff, (IH Hr). split.
+    + intros [H|H].
+      * apply in_flat_map in H as (t' & Ht' & H).
+        destruct (assoc t' c) as [tr|] eqn:Ha; [|destruct H].
+        apply in_map_iff in H as ([p' v] & Epv & Hq). cbn in Epv. inversion Epv; subst.
+        apply query_spec in Hq as [Hl Hm]; [|eapply wf_cache_tree; [exact Hwf|apply assoc_In; exact Ha]].
+        split; [assumption|]. exists tr, sp, full. auto 10.
+      * destruct H as (Ht & tr & sp' & full' & H1 & H2 & H3 & H4 & H5).
+        split; [assumption|]. exists tr, sp', full'. auto 10.
+    + intros (Ht & tr & sp' & full' & Ha & Hl & [<-|Hsp] & Hc & Hm).
+      * left. rewrite E in Hc. inversion Hc; subst full'.
+        apply in_flat_map. exists t. split; [assumption|]. rewrite Ha.
+        apply in_map_iff. exists (p, n). split; [reflexivity|].
+        apply query_spec; [eapply wf_cache_tree; [exact Hwf|apply assoc_In; exact Ha]|auto].
+      * right. split; [assumption|]. exists tr, sp', full'. auto 10.
+Qed.
+
+Lemma held_send_sound hist q r :
+  held_send hist q r ->
+  (forall n, In (RUpd n) r -> exists h, In h q /\ read_later hist h n)
+  /\ (forall h, In h q -> exists n, In (RUpd n) r /\ read_later hist h n)
+  /\ ~ In RSync r /\ List.length r = List.length q.
+Proof.
+  induction 1 as [|h n q r Hr _ IH]; cbn.
+  - split; [intros n []|]. split; [intros h []|]. split; [tauto|reflexivity].
+  - destruct IH as (I1 & I2 & I3 & I4). split; [|split; [|split]].
+    + intros m [E|Hin]; [inversion E; subst; eauto|].
+      destruct (I1 m Hin) as (h' & Hh & Hrl). eauto.
+    + intros h' [<-|Hin]; [eauto|]. destruct (I2 h' Hin) as (m & Hm & Hrl). eauto.
+    + intros [E|Hin]; [discriminate|contradiction].
+    + now rewrite I4.
+Qed.
+
+(** writes between the walk and the send: (1) every update delivered is a value
+    that was stored, under a path one of the subscriptions matches, in a
+    selected target, at some moment of the call -- the walk's cache or a later
+    state; (2) every leaf the walk found is delivered, with a value it held
+    during the call (its value at the walk, or a later one under the same
+    path); (3) the updates are followed by exactly one sync (none inside) and
+    as many responses are sent as handles were queued: a queued leaf that a
+    writer deleted does not abort the delivery of the rest. *)
+Lemma once_held_weak c0 hist names pf subs ups :
+  wf_cache c0 -> (forall sp, In sp subs -> complete_path pf sp <> None) ->
+  held_send hist (walk_handles c0 names pf subs) ups ->
+  (forall n, In (RUpd n) ups ->
+     exists t p sp full, In t names /\ In sp subs /\ complete_path pf sp = Some full
+       /\ qmatch full p = true
+       /\ exists c tr, In c (c0 :: hist) /\ assoc t c = Some tr /\ lookup tr p = Some n)
+  /\ (forall t tr p n0 sp full,
+        In t names -> assoc t c0 = Some tr -> lookup tr p = Some n0 -> In sp subs ->
+        complete_path pf sp = Some full -> qmatch full p = true ->
+        exists n, In (RUpd n) ups
+          /\ exists c tr', In c (c0 :: hist) /\ assoc t c = Some tr' /\ lookup tr' p = Some n)
+  /\ ~ In RSync ups
+  /\ List.length ups = List.length (walk_handles c0 names pf subs).
+Proof.
+  intros Hwf Hok Hs. destruct (held_send_sound _ _ _ Hs) as (H1 & H2 & H3 & H4).
+  split; [|split; [|split; assumption]].
+  - intros n Hn. destruct (H1 n Hn) as ([[t p] n0] & Hq & Hrl).
+    apply (walk_handles_spec c0 names pf subs t p n0 Hwf Hok) in Hq
+      as (Ht & tr & sp & full & Ha & Hl & Hsp & Hc & Hm).
+    exists t, p, sp, full. repeat split; auto.
+    destruct Hrl as [E|(c & tr' & Hc' & Ha' & Hl')]; cbn in *.
+    + subst n. exists c0, tr. split; [now left|]. split; assumption.
+    + exists c, tr'. split; [now right|]. split; assumption.
+  - intros t tr p n0 sp full Ht Ha Hl Hsp Hc Hm.
+    assert (Hq : In (t, p, n0) (walk_handles c0 names pf subs)).
+    { apply (walk_handles_spec c0 names pf subs t p n0 Hwf Hok). split; [assumption|].
+      exists tr, sp, full. auto 10. }
+    destruct (H2 _ Hq) as (n & Hn & Hrl). exists n. split; [assumption|].
+    destruct Hrl as [E|(c & tr' & Hc' & Ha' & Hl')]; cbn in *.
+    + subst n. exists c0, tr. split; [now left|]. split; assumption.
+    + exists c, tr'. split; [now right|]. split; assumption.
+Qed.
+
+(** the sequential delivery (nothing written in between) is the instance in
+    which every handle is read as it was queued *)
+Lemma held_send_refl hist q : held_send hist q (map (fun h => RUpd (snd h)) q).
+Proof.
+  induction q as [|h q IH]; cbn; constructor; [now left|assumption].
+Qed.
+
 Lemma never_sends_denied_user allow u rq st ops g n :
   In g (fst (run allow (ACLUser (Some u)) rq st ops)) -> In (RUpd n) (fst g) ->
   allow u (g_target (n_prefix n)) = true.
